@@ -17,30 +17,37 @@ type VerifTreeStats struct {
 	Size   int
 	Height int
 	Shape  string // parenthesised shape, e.g. "((.)(.))"
+	// Loose lists deviations that cost performance but cannot change any
+	// answer: AVL imbalance, stale height fields, maxEnd above the real maximum.
+	Loose []string
 }
 
-// VerifCheck walks the tree and checks the AVL, ordering, height, maxEnd and
-// size invariants. It returns the first broken invariant.
+// VerifCheck walks the tree and checks the invariants the query and insert
+// code relies on for correct answers: search-tree order on start times, every
+// maxEnd field at least the real maximum end of its subtree (pruning is sound),
+// and the size field. It returns the first broken one. Deviations that only
+// cost performance are reported in VerifTreeStats.Loose.
 func (t *IntervalTree) VerifCheck() (VerifTreeStats, error) {
-	n, h, _, shape, err := verifWalk(t.root)
+	var loose []string
+	n, h, _, shape, err := verifWalk(t.root, &loose)
 	if err != nil {
 		return VerifTreeStats{}, err
 	}
 	if n != t.size {
 		return VerifTreeStats{}, fmt.Errorf("size field %d but %d nodes", t.size, n)
 	}
-	return VerifTreeStats{Size: n, Height: h, Shape: shape}, nil
+	return VerifTreeStats{Size: n, Height: h, Shape: shape, Loose: loose}, nil
 }
 
-func verifWalk(n *treeNode) (count, h int, maxEnd int64, shape string, err error) {
+func verifWalk(n *treeNode, loose *[]string) (count, h int, maxEnd int64, shape string, err error) {
 	if n == nil {
 		return 0, 0, minInt64, ".", nil
 	}
-	lc, lh, lmax, lshape, err := verifWalk(n.left)
+	lc, lh, lmax, lshape, err := verifWalk(n.left, loose)
 	if err != nil {
 		return
 	}
-	rc, rh, rmax, rshape, err := verifWalk(n.right)
+	rc, rh, rmax, rshape, err := verifWalk(n.right, loose)
 	if err != nil {
 		return
 	}
@@ -61,10 +68,10 @@ func verifWalk(n *treeNode) (count, h int, maxEnd int64, shape string, err error
 	}
 	h++
 	if n.height != h {
-		return 0, 0, 0, "", fmt.Errorf("height field %d of %v, real height %d", n.height, n.interval, h)
+		*loose = append(*loose, fmt.Sprintf("height field %d of %v, real height %d", n.height, n.interval, h))
 	}
 	if d := lh - rh; d > 1 || d < -1 {
-		return 0, 0, 0, "", fmt.Errorf("balance %d at %v", d, n.interval)
+		*loose = append(*loose, fmt.Sprintf("balance %d at %v", d, n.interval))
 	}
 	maxEnd = GetEndTime(n.interval)
 	if n.left != nil && lmax > maxEnd {
@@ -73,8 +80,11 @@ func verifWalk(n *treeNode) (count, h int, maxEnd int64, shape string, err error
 	if n.right != nil && rmax > maxEnd {
 		maxEnd = rmax
 	}
-	if n.maxEnd != maxEnd {
-		return 0, 0, 0, "", fmt.Errorf("maxEnd field %d of %v, real max end %d", n.maxEnd, n.interval, maxEnd)
+	if n.maxEnd < maxEnd {
+		return 0, 0, 0, "", fmt.Errorf("maxEnd field %d of %v below real max end %d", n.maxEnd, n.interval, maxEnd)
+	}
+	if n.maxEnd > maxEnd {
+		*loose = append(*loose, fmt.Sprintf("maxEnd field %d of %v above real max end %d", n.maxEnd, n.interval, maxEnd))
 	}
 	return lc + rc + 1, h, maxEnd, "(" + lshape + rshape + ")", nil
 }
